@@ -28,8 +28,10 @@ POOL = {
     10: ("slice", ["sl", ["sig", "wide"], ["s", 0, 2, None]]),
     11: ("slice", ["sl", ["sig", "s1"], ["s", None, None, -1]]),
     12: ("slice", ["sl", ["sig", "wide"], ["s", 1, 3, None]]),
+    13: ("slice", ["sl", ["pref", 0, 0], ["s", None, None, -1]]),                       # i0.a[::-1]
     20: ("concat", ["cat", [S0b0, ["sl", ["sig", "wide"], ["i", 3]]]]),
     21: ("concat", ["cat", [["sl", ["sig", "s1"], ["i", 1]], ["sl", ["sig", "s0"], ["i", -1]]]]),
+    22: ("concat", ["cat", [["sl", ["pref", 0, 1], ["i", 0]], ["sl", ["pref", 0, 0], ["i", 1]]]]),   # Concat(i0.b[0], i0.a[1])
     30: ("noconn", ["nc", None]), 31: ("noconn", ["nc", "ncx"]), 32: ("noconn", ["nc", None]),
     40: ("bundle", ["bundle", "bi0"]), 41: ("bundle", ["bundle", "bi1"]),
     50: ("anon", ["anon", {"x": S0b0, "y": ["sl", ["sig", "s1"], ["i", 0]]}]),
@@ -38,7 +40,8 @@ POOL = {
 DICTS = {0: {"x": ["sl", ["sig", "s1"], ["i", 1]], "y": ["sl", ["sig", "wide"], ["i", 2]]},
          1: {"x": ["bref", "bi1", "y"], "y": ["bref", "bi1", "x"]}}
 BY_KIND = {k: [i for i, (kk, _) in POOL.items() if kk == k] for k in CK}
-WIDTH = {0: 2, 1: 2, 2: 4, 10: 2, 11: 2, 12: 2, 20: 2, 21: 2}
+WIDTH = {0: 2, 1: 2, 2: 4, 10: 2, 11: 2, 12: 2, 13: 2, 20: 2, 21: 2, 22: 2}
+PREFS_IN = {13: [(0, 0)], 22: [(0, 1), (0, 0)]}      # slices / concats OF port references: the ports they refer to
 
 
 # ------------------------------------------------------------------------------------------ python mirror of the spec
@@ -116,6 +119,9 @@ def expand(ops):
         for a in args:
             if a[0] == "ref":
                 out.append(["getref", a[1], a[2]])
+            if a[0] == "obj":
+                for t in PREFS_IN.get(a[1], []):
+                    out.append(["getref", t[0], t[1]])
         out.append(op)
     return out
 
@@ -129,7 +135,11 @@ def arr_n(k):
 
 def referenced(m, kinds):
     """Ports referred to by a live connection of an instance of the module (the template is not part of it)."""
-    return {(c[1], c[2]) for q, c in m.items() if c[0] == "ref" and kinds[q[0]] != -1}
+    out = {(c[1], c[2]) for q, c in m.items() if c[0] == "ref" and kinds[q[0]] != -1}
+    for q, c in m.items():
+        if c[0] == "obj" and kinds[q[0]] != -1:
+            out |= set(PREFS_IN.get(c[2], []))
+    return out
 
 
 def conn_valid(m, kinds, q, c):
@@ -153,6 +163,15 @@ def conn_valid(m, kinds, q, c):
         return k in ("bundle", "anon")
     if k in ("bundle", "anon"):
         return False
+    if oid in PREFS_IN:
+        # a slice/concat of references to ports of i0: not on i0 itself, and only while those ports end on a plain
+        # object or are the root of their group (no loops through the slice)
+        if i == 0 or kinds[0] != 0:
+            return False
+        for t in PREFS_IN[oid]:
+            tc = m.get(t)
+            if tc is not None and (tc[0] == "ref" or tc[1] == "noconn" or tc[2] in PREFS_IN):
+                return False
     w = WIDTH[oid]
     return w == W or (arr_n(kinds[i]) > 0 and w == W * arr_n(kinds[i]))
 
@@ -182,6 +201,7 @@ def candidates(m, kinds, q, allow_ref=True, allow_nc=True):
         out += [["obj", k] for k in BY_KIND["bundle"] + BY_KIND["anon"]]
     else:
         out += [["obj", k] for k in (0, 1, 10, 11, 12, 20, 21)]
+        out += [["obj", k] for k in PREFS_IN if conn_valid(m, kinds, q, ("obj", POOL[k][0], k))]
         if arr_n(kinds[i]) == 2:
             out.append(["obj", 2])
     if allow_nc and q not in referenced(m, kinds) and not (arr_n(kinds[i]) > 0 and p == BP):
@@ -242,6 +262,17 @@ def flat_member(e):
     return e
 
 
+def cexpr(e):
+    """pool recipe -> connection expression of the abstract design language"""
+    if e[0] == "pref":
+        return ["ref", f"i{e[1]}", PORTS[e[2]]]
+    if e[0] == "sl":
+        return ["sl", cexpr(e[1]), e[2]]
+    if e[0] == "cat":
+        return ["cat", [cexpr(x) for x in e[1]]]
+    return e
+
+
 def design_of(m, kinds, dicts):
     leaf = dict(name="Leaf", ports=[["a", W, "none"], ["b", W, "none"], ["bp_x", 1, "none"], ["bp_y", 1, "none"]], sigs=[],
                 insts=[dict(name="e", n=0, of=["ext", 0, 1], conns=[["x0", ["sig", "a"]], ["x1", ["sig", "b"]]]),
@@ -276,7 +307,7 @@ def design_of(m, kinds, dicts):
                 mem = POOL[oid][1][1] if oid in POOL else DICTS[dicts[oid]]
                 conns += [["bp_x", flat_member(mem["x"])], ["bp_y", flat_member(mem["y"])]]
             else:
-                conns.append([pn, POOL[oid][1]])
+                conns.append([pn, cexpr(POOL[oid][1])])
         insts.append(dict(name=f"i{i}", n=n, of=["mod", 0], conns=conns))
     top = dict(name="Top", ports=[], insts=insts,
                sigs=[["s0", 2], ["s1", 2], ["wide", 4], ["bi0_x", 1], ["bi0_y", 1], ["bi1_x", 1], ["bi1_y", 1]])
@@ -744,10 +775,10 @@ def run(run, tier, seed, replay=None):
     cov = dict(pairs={}, refused=0, ops={}, export_failed=0, arrays=0)
     streams = [("corpus", corpus_jobs()),
                ("small", small_jobs(quick)),
-               ("pairs", pair_jobs(seed, 3 if quick else 24)),
-               ("random", random_jobs(seed, 120 if quick else 4000, 12 if quick else 30)),
-               ("toarray", toarray_jobs(seed, 60 if quick else 1500)),
-               ("malformed", malformed_jobs(seed, 80 if quick else 1500))]
+               ("pairs", pair_jobs(seed, 3 if quick else 16)),
+               ("random", random_jobs(seed, 120 if quick else 2500, 12 if quick else 30)),
+               ("toarray", toarray_jobs(seed, 60 if quick else 800)),
+               ("malformed", malformed_jobs(seed, 80 if quick else 800))]
     results = []
     for name, jobs in streams:
         outs, res = evaluate(name, jobs)
